@@ -57,6 +57,7 @@ let f1_fixed = ref false
 let f2_fixed = ref false
 let f7_fixed = ref false
 let f8_fixed = ref false
+let f4_fixed = ref false
 
 let enc_cmode () =
   let f = !fmt in
@@ -95,7 +96,8 @@ let () =
     | ["corre"; a; b] -> mw := ri a; mh := ri b
     | "variant" :: a :: b :: rest -> f1_fixed := (a = "1"); f2_fixed := (b = "1");
         f7_fixed := (match rest with c :: _ -> c = "1" | [] -> false);
-        f8_fixed := (match rest with _ :: d :: _ -> d = "1" | _ -> false)
+        f8_fixed := (match rest with _ :: d :: _ -> d = "1" | _ -> false);
+        f4_fixed := (match rest with _ :: _ :: e :: _ -> e = "1" | _ -> false)
     | ["tr"; w; h; hex] -> scr := grid_of_hex !bypp (ri w) (ri h) hex
     | ["upd"; x; y; w; h] ->
         let p = { p_enc = z_of_int !enc; p_bypp = nat_of_int !bypp; p_sbypp = nat_of_int !sbypp;
@@ -106,6 +108,7 @@ let () =
             let zi k = z_of_int f.(k) in
             send_tight_session !f7_fixed !f8_fixed (nat_of_int !sbypp) (nat_of_int !bypp) (zi 0) (zi 1) (zi 2) (zi 3) (zi 4) (zi 5) (zi 6) (zi 7) (zi 8) (zi 9)
               (z_of_int !tight_level) (z_of_int !tight_quality) !tight_lastrect (ni x) (ni y) (ni w) (ni h) !scr !sfb
+          else if !f4_fixed then send_rect_split p (ni x) (ni y) (ni w) (ni h) !scr
           else send_rect p (ni x) (ni y) (ni w) (ni h) !scr in
         (match result with
          | Ok rects ->
